@@ -2126,3 +2126,66 @@ def load_rebuild(rep, ex: Explorer):
                 rep.check(ok, "STATE.pickled", f"{site}:{line}", f"self.{a} after a load", "an attribute that load_ocf leaves as None is rebuilt or tested before it is used by anything a loaded object can run",
                           extracted=f"self.{a} is dereferenced; the method neither assigns nor tests it, and it is reachable without the constructor" if not ok else "assigned or tested in the method", required="rebuild on demand (or a None test)", function=site)
     rep.floor("methods of the ranking classes looked at for unset attributes", n_methods, 20)
+
+
+def save_no_mutation(rep, ex: Explorer):
+    """SAVE.unchanged on the writers other than save_ocf (save_metadata, export_impacts, save_impacts): "a save that fails
+    part-way leaves the in-memory object unchanged".  Opening the target and serialising into it can fail, so nothing
+    reachable from `self` may be written before the last such operation: no assignment / augmented assignment / deletion
+    whose target starts at `self`, and no mutating method (`update`, `setdefault`, `append`, `pop`, `clear`, ...) called on
+    an attribute of `self`, in a statement that comes before a file-opening or dumping call in the function's order of
+    statements.  (save_ocf detaches and restores on purpose: SAVE.restore decides that one.)"""
+    import ast as _ast
+
+    prog = ex.prog
+    MUT = {"update", "setdefault", "append", "extend", "insert", "pop", "popitem", "clear", "remove", "discard", "add", "sort", "reverse", "__setitem__", "__delitem__"}
+    n = 0
+
+    def rooted_at_self(e):
+        while isinstance(e, (_ast.Attribute, _ast.Subscript)):
+            e = e.value
+        return isinstance(e, _ast.Name) and e.id == "self"
+
+    def is_io(c):
+        if not isinstance(c, _ast.Call):
+            return False
+        f = c.func
+        nm = f.attr if isinstance(f, _ast.Attribute) else (f.id if isinstance(f, _ast.Name) else "")
+        return nm in ("open", "dump", "dumps", "write_text", "write_bytes", "mkdir", "savetxt", "save")
+
+    for cls in (PO, CUS, ZP, CR):
+        for name in ("save_metadata", "export_impacts", "save_impacts"):
+            fi = prog.functions.get(f"{cls}.{name}")
+            if fi is None:
+                continue
+            site = fn_label(prog, f"{cls}.{name}")
+            n += 1
+            nodes = [x for x in _ast.walk(fi.node) if hasattr(x, "lineno")]
+            io_lines = [c.lineno for c in nodes if is_io(c)]
+            if not io_lines:
+                # the writer delegates (save_impacts -> export_impacts): nothing can fail here before the callee runs
+                rep.ok("SAVE.unchanged", site, "writes before the file operation", "no file operation in this function (it delegates)")
+                continue
+            last_io = max(io_lines)
+            bad = None
+            for x in nodes:
+                if x.lineno > last_io:
+                    continue
+                tgts = []
+                if isinstance(x, _ast.Assign):
+                    tgts = x.targets
+                elif isinstance(x, (_ast.AugAssign, _ast.AnnAssign)):
+                    tgts = [x.target]
+                elif isinstance(x, _ast.Delete):
+                    tgts = x.targets
+                for t in tgts:
+                    for tt in (t.elts if isinstance(t, (_ast.Tuple, _ast.List)) else [t]):
+                        if isinstance(tt, (_ast.Attribute, _ast.Subscript)) and rooted_at_self(tt) and bad is None:
+                            bad = x
+                if isinstance(x, _ast.Call) and isinstance(x.func, _ast.Attribute) and x.func.attr in MUT and isinstance(x.func.value, (_ast.Attribute, _ast.Subscript)) and rooted_at_self(x.func.value) and bad is None:
+                    bad = x
+            rep.check(bad is None, "SAVE.unchanged", site if bad is None else f"{site}:{bad.lineno}", "writes before the file operation",
+                      "nothing reachable from self is written before the target was opened and written (either can fail, and a failed save leaves the object unchanged)",
+                      extracted=(f"`{_ast.unparse(bad)[:90]}` at line {bad.lineno}, file operation at line {last_io}" if bad is not None else "no write to self before the file operations"),
+                      required="no write to self", function=site)
+    rep.floor("writers looked at for SAVE.unchanged", n, 2)
